@@ -196,7 +196,7 @@ def renderClass (g : G) (w : W) (e : Elem) : Except String (G × W × Elem) :=
           | .objectRef => let (g, w, _) := twWrite g w (bs "goht.ObjectClass(" ++ c.lit ++ bs ")"); (g, w)
           | .attrDynamicValue => let (g, w, r) := twWrite g w c.lit; (g.add c r, w)
           | .cls => let (g, w, _) := twWrite g w (bs "\"" ++ quoteBody c.lit ++ bs "\""); (g, w)
-          | _ => let (g, w, _) := twWrite g w c.lit; (g, w)
+          | _ => let (g, w, _) := twWrite g w (bs "\"" ++ quoteBody (unquote c.lit) ++ bs "\""); (g, w)   -- decoded and re-quoted (error case not modelled)
         let (g, w) := if i < n - 1 then let (g, w, _) := twWrite g w (bs ", "); (g, w) else (g, w)
         go (i+1) rest g w
     let (g, w) := go 0 e.classes g w
